@@ -7,6 +7,9 @@ CONSTANTS
   MaxT = 1
   Phases <- decode_q_Phases
   ShapeSet <- decode_q_Shapes
+  Signers = {"s1", "s2"}
+  Recipients = {"r1", "r2"}
+  Policies <- decode_q_Policies
   CfgName = "decode_q"
 INIT Init
 NEXT Next
